@@ -168,7 +168,9 @@ impl DiagRig {
             ensure!(*da == self.addr, "oracle-selfcheck", "request to unexpected address");
             let reply = match dsap {
                 Some(60) => {
-                    let f = RefFrame::Data { da: 2, sa: self.addr, dsap: Some(62), ssap: Some(60), fc: 0x08, pdu: pdu.to_vec() };
+                    // the reply status is 'data low', 'OK' or 'data high' (further diagnostics pending), by content
+                    let fc = [0x08u8, 0x00, 0x0A][(pdu.len() + usize::from(pdu.first().copied().unwrap_or(0))) % 3];
+                    let f = RefFrame::Data { da: 2, sa: self.addr, dsap: Some(62), ssap: Some(60), fc, pdu: pdu.to_vec() };
                     let bytes = rc::encode(&f);
                     let (t, _) = Telegram::deserialize(&bytes).unwrap().unwrap();
                     self.master.receive_reply(now, &self.fdl, self.addr, t);
